@@ -86,6 +86,40 @@ EXTRA = [
     "enum E { A = 1, B, } e;",
     "int f(void){ if (({ 1; })) return ({ 2; }); while (({ 0; })) ; for (({ 1; }); ({ 2; }); ({ 3; })) ; int x = ({ 4; }); return x; }",
     "#pragma omp parallel  \nint x;\nvoid f(void){\n#pragma unroll 4\t\n for(;;) ;\n#pragma  spaced   out \n}\nstruct S {\n#pragma pack(1) \n int a; };",
+    "const _Atomic(int *) p; _Atomic(int) * const q; volatile _Atomic(struct S *) r[2];",
+    # GNU statement expressions in every operand position (one program each, so
+    # that one rejected position cannot take the others out of the domain)
+    'int a[4]; struct S { int m; } s; int g(int, int); int f(int x){ a[({ 1; })]; return x; }',
+    'int a[4]; struct S { int m; } s; int g(int, int); int f(int x){ sizeof(({ 2; })); return x; }',
+    'int a[4]; struct S { int m; } s; int g(int, int); int f(int x){ sizeof ({ 2; }); return x; }',
+    'int a[4]; struct S { int m; } s; int g(int, int); int f(int x){ x = ({ 4; }); return x; }',
+    'int a[4]; struct S { int m; } s; int g(int, int); int f(int x){ x ? ({1;}) : 2; return x; }',
+    'int a[4]; struct S { int m; } s; int g(int, int); int f(int x){ ({1;}) ? 1 : 2; return x; }',
+    'int a[4]; struct S { int m; } s; int g(int, int); int f(int x){ x ? 1 : ({2;}); return x; }',
+    'int a[4]; struct S { int m; } s; int g(int, int); int f(int x){ ({1;}) + 2; return x; }',
+    'int a[4]; struct S { int m; } s; int g(int, int); int f(int x){ 2 + ({1;}); return x; }',
+    'int a[4]; struct S { int m; } s; int g(int, int); int f(int x){ (int)({3;}); return x; }',
+    'int a[4]; struct S { int m; } s; int g(int, int); int f(int x){ -({4;}); return x; }',
+    'int a[4]; struct S { int m; } s; int g(int, int); int f(int x){ ({x;})++; return x; }',
+    'int a[4]; struct S { int m; } s; int g(int, int); int f(int x){ ({s;}).m; return x; }',
+    'int a[4]; struct S { int m; } s; int g(int, int); int f(int x){ ({g;})(1, 2); return x; }',
+    'int a[4]; struct S { int m; } s; int g(int, int); int f(int x){ g(({1;}), 2); return x; }',
+    'int a[4]; struct S { int m; } s; int g(int, int); int f(int x){ (({1;}), 2); return x; }',
+    'int a[4]; struct S { int m; } s; int g(int, int); int f(int x){ (2, ({1;})); return x; }',
+    'int a[4]; struct S { int m; } s; int g(int, int); int f(int x){ ({a;})[2]; return x; }',
+    'int a[4]; struct S { int m; } s; int g(int, int); int f(int x){ (struct S){({1;})}; return x; }',
+    'int a[4]; struct S { int m; } s; int g(int, int); int f(int x){ *({a;}); return x; }',
+    'int a[4]; struct S { int m; } s; int g(int, int); int f(int x){ x += ({1;}); return x; }',
+    'int a[4]; struct S { int m; } s; int g(int, int); int f(int x){ (({1;})) = 2; return x; }',
+    'int a[4]; struct S { int m; } s; int g(int, int); int f(int x){ !({ int y = 2; y; }); return x; }',
+    'int f(void){ int a[({1;})]; }',
+    'enum E { A = ({1;}) };',
+    'struct S { int b : ({1;}); };',
+    '_Static_assert(({1;}), "s");',
+    '_Alignas(({1;})) int z;',
+    'int a[] = { [({1;})] = 1, [(({2;}))] = 2 };',
+    'int y[2] = { ({4;}), 1 };',
+    'int f(int x){ switch (x) { case ({1;}): ; } do ; while (({1;})); switch (({1;})) ; ({1;}); }',
     # consecutive declarators of different shape that start with the same token
     "void f(int *p, int *);",
     "typedef int T; int f(int (*T), int (T));",
